@@ -180,8 +180,17 @@ class _Scan(ast.NodeVisitor):
     visit_AsyncFunctionDef = _func
 
     def visit_Module(self, n: ast.Module) -> None:
+        local_classes = {c.name for c in n.body if isinstance(c, ast.ClassDef)}
         for s in n.body:
             self._container_assign(s, "module")
+            # a module-level INSTANCE of a class of this module is an object shared by all compilations
+            tgt = val = None
+            if isinstance(s, ast.Assign) and len(s.targets) == 1 and isinstance(s.targets[0], ast.Name):
+                tgt, val = s.targets[0].id, s.value
+            elif isinstance(s, ast.AnnAssign) and isinstance(s.target, ast.Name) and s.value is not None:
+                tgt, val = s.target.id, s.value
+            if tgt and isinstance(val, ast.Call) and isinstance(val.func, ast.Name) and val.func.id in local_classes:
+                self.addm(f"module-level instance {tgt} = {val.func.id}(...)")
         self.generic_visit(n)
 
     def _container_assign(self, s: ast.stmt, level: str) -> None:
